@@ -10,14 +10,35 @@ _min_obs_quick = {
     "cfg_cylindrical": 800, "cfg_blocks_on_cylindrical": 200, "cfg_downsampled_scanner": 200,
     # "history" cases (2/3 of the cases)
     "histories": 3500, "history_steps": 30000, "history_checkpoints": 20000,
+    # (16 step kinds since the down-sampling extension: each of the older kinds is drawn 3/4 as often as before)
     "fresh_object_comparisons": 40000, "fresh_random_order_comparisons": 20000, "bins_compared_with_fresh_object": 4000000,
-    "steps_new_activity_image": 5000, "steps_new_attenuation_image": 2500, "steps_new_scatter_point_image": 2500,
-    "steps_new_threshold_and_scatter_point_image_again": 2500, "steps_new_template": 5000, "steps_new_energy_window": 5000,
-    "steps_cache_switch": 2500, "steps_same_value_again": 2500, "steps_rerun_without_change": 2500,
+    "steps_new_activity_image": 4000, "steps_new_attenuation_image": 2000, "steps_new_scatter_point_image": 2000,
+    "steps_new_threshold_and_scatter_point_image_again": 2000, "steps_new_template": 4000, "steps_new_energy_window": 4000,
+    "steps_cache_switch": 2000, "steps_same_value_again": 2000, "steps_rerun_without_change": 2000,
     # the state in which the defect repaired by 'fix: ScatterSimulation::set_up must recompute the 511 keV detection efficiency' shows
-    "states:energy-window-changed-after-process_data-with-same-template": 5000,
-    "process_data_again_without_set_up": 500, "set_up_twice_in_a_row": 2500,
+    "states:energy-window-changed-after-process_data-with-same-template": 4000,
+    "process_data_again_without_set_up": 400, "set_up_twice_in_a_row": 2500,
     "setter:set_exam_info_sptr": 10000, "setter:set_cache_enabled": 10000, "setter:downsample_scanner": 8000,
+    # extension: scatter-point image derived by the library, images zoomed to the scanner, scanner down-sampled again
+    "steps_sp_by_downsample_density_image_for_scatter_points": 1300,
+    "steps_sp_by_downsample_density_image_for_scatter_points_automatic_zoom": 300,
+    "steps_sp_by_set_image_downsample_factors_and_set_up": 900, "steps_sp_by_default_factors_and_set_up": 350,
+    "steps_new_attenuation_image_with_downsample_factors_still_in_force": 180,
+    "steps_downsample_images_to_scanner_size": 1300, "steps_downsample_images_to_scanner_size_then_sp_derived": 700,
+    "steps_downsample_scanner_on_current_template": 600,
+    # the template grids share the z-middle of the images: the scatter-point image given before survives the call
+    "histories_with_images_on_the_z_middle_of_the_template_grid": 500,
+    "steps_downsample_images_to_scanner_size_scatter_point_image_kept": 80,
+    "checkpoints_sp_derived_by_downsample_density_image_for_scatter_points": 4000,
+    "checkpoints_sp_derived_in_set_up_from_set_image_downsample_factors": 2000,
+    "checkpoints_sp_derived_in_set_up_with_default_factors": 1000, "checkpoints_sp_derived_with_automatic_zoom": 2000,
+    "checkpoints_with_image_from_downsample_images_to_scanner_size": 3000, "checkpoints_with_twice_downsampled_scanner": 1500,
+    "set_up_derives_scatter_point_image": 8000, "fresh_objects_with_downsample_images_prelude": 6000,
+    "setter:downsample_density_image_for_scatter_points": 12000, "setter:set_image_downsample_factors": 5000,
+    "setter:downsample_images_to_scanner_size": 7000, "setter:downsample_scanner_of_downsampled_or_current_template": 4000,
+    # the state in which the defect repaired by 'fix: ...downsample_density_image_for_scatter_points must keep the requested zoom
+    # factors and sizes' shows: set_up derives the scatter-point image on an object that derived one before, factors not given since
+    "states:sp-derived-in-set_up-after-an-earlier-derivation-without-new-factors": 700,
 }
 
 prop("C16",
@@ -25,7 +46,8 @@ prop("C16",
      runs={
          "quick": [dict(flavour="asan", cases=300), dict(flavour="rel", cases=6000)],
          # thorough cases are 3-4x as expensive as quick ones (larger scanners and images); sized for about 30 min on 6 shards
-         "thorough": [dict(flavour="asan", cases=400), dict(flavour="rel", cases=12000)],
+         # (measured with the down-sampling steps on a loaded machine: asan 400 cases 901 s, rel 12000 cases 1240 s)
+         "thorough": [dict(flavour="asan", cases=300), dict(flavour="rel", cases=12000)],
      },
      min_nontrivial={"quick": 4500, "thorough": 9000},
      min_obs={"quick": _min_obs_quick,
@@ -41,12 +63,25 @@ prop("C16",
            "detector orders through actual_scatter_estimate and through simulate_for_one_scatter_point per scatter point, stored "
            "process_data value == per-pair function, values finite and >= 0, a fresh object with the other cache setting gives "
            "bit-identical output, est(a*x+b*z) against a*est(x)+b*est(z) (b negative in 30%) within the computed float32 band, "
-           "est(0) == 0.  history: one object configured in random setter order, then 4..20 (..24) steps out of {new activity image, "
+           "est(0) == 0.  history: one object configured in random setter order (scatter-point image given, or derived from the "
+           "attenuation image by downsample_density_image_for_scatter_points(zoom_xy, zoom_z, size_xy, size_z) 25%, or inside set_up "
+           "after set_image_downsample_factors 15% / with the default automatic factors 10%), then 4..20 (..24) steps out of {new activity image, "
            "new attenuation image (+ scatter-point image), new scatter-point image, new threshold followed by the scatter-point image "
            "again, new template, new energy window through set_exam_info / set_exam_info_sptr, cache switch through set_use_cache / "
-           "set_cache_enabled, a setter called again with its current value, nothing}; at random check-points and at the end: "
+           "set_cache_enabled, a setter called again with its current value, nothing, scatter-point image derived by "
+           "downsample_density_image_for_scatter_points (zoom_xy 0.3..1.3 or 1 or automatic, zoom_z exact for the number of planes "
+           "asked for / automatic / free within the 0.1 the library accepts, sizes -1 or given), set_image_downsample_factors + the "
+           "same or a new attenuation image (set_up derives; a later attenuation image keeps the factors in 60%), the automatic "
+           "factors given back through the direct call + attenuation image (set_up derives), downsample_images_to_scanner_size() "
+           "followed by a derived or a new scatter-point image on the new z-middle - in 30% of the histories every template has the "
+           "ring spacing that puts the z-middle of its image grid on that of the images, and the scatter-point image given before "
+           "is then kept in 70% -, downsample_scanner(rings, dets) - 30% through "
+           "set_num_downsample_scanner_rings/dets - on the current cylindrical template (at most two levels)}; a derivation with an "
+           "automatic zoom is repeated after every template change; at random check-points and at the end: "
            "set_up (15%: twice; after 'nothing': sometimes none) + process_data, output compared bit-wise with a fresh object "
-           "configured with the final values in canonical setter order and with a second fresh object configured in a random order.  "
+           "configured with the final values in canonical setter order (images made by downsample_images_to_scanner_size through a "
+           "prelude: template of that moment, source images, that call) and with a second fresh object configured in a random order; a "
+           "call the history object rejects must be rejected by a fresh object too.  "
            "Threshold and random-placement flag always precede the scatter-point image, the attenuation image precedes it too (it "
            "discards it).  non-trivial = the output of the (last) configuration has a positive bin; distinct = distinct case descriptor"),
      technique=("runtime monitoring: a harness subclass of SingleScatterSimulation exposes the per-detector-pair functions; inverse / "
@@ -60,7 +95,10 @@ prop("C16",
                  "for zero activity.  Thousands of random setter / set_up / process_data histories (about 12 steps, 6 check-points "
                  "each) are compared bit for bit with two freshly configured objects (canonical and random setter order).  Counters "
                  "prove that every kind of step, both cache settings, all three scanner kinds, re-runs without set_up, repeated "
-                 "set_up and the 'energy window changed after a process_data' state occurred.  Detection validated on planted "
+                 "set_up, the 'energy window changed after a process_data' state and the 'set_up derives the scatter-point image again "
+                 "with the factors in force' state occurred; every way of obtaining the scatter-point image (given / direct "
+                 "down-sampling call / inside set_up from given or default factors), downsample_images_to_scanner_size and a second "
+                 "downsample_scanner are counted per step and per check-point.  Detection validated on planted "
                  "mutations: set_activity_image_sptr without remove_cache_for_integrals_over_activity and "
                  "set_template_proj_data_info without the two remove_cache calls (history:output-differs-from-fresh-object), "
                  "attenuation cache indexed [det][point] (crash keys, cache:on-differs-from-off, history:...), incidence cosine of "
@@ -72,8 +110,11 @@ prop("C16",
                  "invisible.  set_attenuation_threshold and set_randomly_place_scatter_points are not among the changes the statement "
                  "lists; they are always called before the scatter-point image is given (afterwards the library ignores them until that "
                  "image is set again), and randomly placed scatter points (time-seeded) are never used.  The scatter-point image is "
-                 "always supplied (the zoom performed inside set_up when it is missing, and downsample_scanner_bool, are documented as "
-                 "'set_up twice not supported').  Multi-threaded evaluation is C18's subject"),
+                 "given or derived before/inside the first set_up after a change of the attenuation image (downsample_scanner_bool, "
+                 "documented as 'set_up twice not supported', is never switched on).  downsample_images_to_scanner_size is used "
+                 "one level deep (both images are replaced before it is called again) and followed by a scatter-point image "
+                 "on the new z-middle unless that did not move; images zoomed to the template grid can extend beyond 0.78 R (only the history clause uses "
+                 "them).  BlocksOnCylindrical templates are never down-sampled.  Multi-threaded evaluation is C18's subject"),
      assumptions=["the image extent stays inside 0.78 of the smallest ring radius and all images of a case share (nz-1)*vz, as "
                   "ScatterSimulation::set_up demands (issue #495 check)",
                   "scanners have >= 2 rings (set_up asserts a non-degenerate axial extent)"],
